@@ -402,6 +402,10 @@ namespace sim
     {
         if (g->obs_stack) stackmon_frame_done(rt);
     }
+    static void h_frame_popped(runtime& rt, bool had_value)
+    {
+        if (g->obs_stack) stackmon_frame_popped(rt, had_value);
+    }
     static void h_yield(runtime& rt, int site)
     {
         g->probes["site" + std::to_string(site)]++;
@@ -418,6 +422,7 @@ namespace sim
         h.on_instruction_before = h_before;
         h.on_instruction_after = h_after;
         h.on_frame_done = h_frame_done;
+        h.on_frame_popped = h_frame_popped;
         h.yield = h_yield;
     }
 
